@@ -146,6 +146,35 @@ fn grid(n: int) -> [[int]] {
 }
 let total_f = 0.5;
 fn accumulate(f: float) -> float { total_f = total_f + f; total_f }
+fn prefix_len(n: int) -> int {
+    let k = 0;
+    for c in "homescript" {
+        if k == n { return k; }
+        k = k + 1;
+    }
+    k
+}
+let WORD = "automation";
+fn word_prefix(n: int) -> int {
+    let k = 0;
+    for c in WORD {
+        if k >= n { break; }
+        k = k + 1;
+    }
+    k
+}
+fn first_big(n: int) -> int {
+    for v in [3, 9, 27, 81] {
+        if v > n { return v; }
+    }
+    0
+}
+let dl = [1, 2];
+fn double_dl() -> int {
+    if dl.len() > 40 { dl = [1, 2]; }
+    dl.concat(dl);
+    dl.len()
+}
 let va: [int] = [];
 let vb: [int] = [];
 fn alias_views() { vb = va; }
@@ -174,6 +203,7 @@ type c16Model struct {
 	aliased  bool // alias_views() has run: vb and va are one list
 	viewA    int  // elements pushed through va
 	spanIncl bool
+	dlLen    int // length of the global list that double_dl() concatenates with itself
 	log     []int64
 	failed  bool
 	lines   map[string]int
@@ -287,7 +317,41 @@ func c16GenOp(s *simrt.Sim, m *c16Model, pfault int, force int) c16Op {
 			// handled by the caller: print fault / cancel fault on an ordinary op
 		}
 	}
-	switch pick(42, "op") {
+	switch pick(46, "op") {
+	case 42:
+		n := []int64{0, 3, 5, 10, 12}[pick(5, "arg")]
+		want := n
+		if want > 10 {
+			want = 10
+		}
+		return c16Op{pure: true, reusable: true, fn: "prefix_len", args: []value.Value{vInt(n)}, desc: fmt.Sprintf("prefix_len(%d)", n), check: wantInt(want)}
+	case 43:
+		n := []int64{0, 2, 4, 10, 11}[pick(5, "arg")]
+		want := n
+		if want > 10 {
+			want = 10
+		}
+		return c16Op{pure: true, reusable: true, fn: "word_prefix", args: []value.Value{vInt(n)}, desc: fmt.Sprintf("word_prefix(%d)", n), check: wantInt(want)}
+	case 44:
+		n := []int64{0, 3, 10, 50, 100}[pick(5, "arg")]
+		want := int64(0)
+		for _, v := range []int64{3, 9, 27, 81} {
+			if v > n {
+				want = v
+				break
+			}
+		}
+		return c16Op{pure: true, reusable: true, fn: "first_big", args: []value.Value{vInt(n)}, desc: fmt.Sprintf("first_big(%d)", n), check: wantInt(want)}
+	case 45:
+		cur := m.dlLen
+		if cur == 0 {
+			cur = 2
+		}
+		if cur > 40 {
+			cur = 2
+		}
+		want := int64(cur * 2)
+		return c16Op{fn: "double_dl", desc: "double_dl()", check: wantInt(want), apply: func(m *c16Model) { m.dlLen = int(want) }}
 	case 36:
 		return c16Op{fn: "alias_views", desc: "alias_views()", check: wantNull, apply: func(m *c16Model) { m.aliased = true }}
 	case 37:
